@@ -385,6 +385,24 @@ def main():
     for k_, v_ in fr0.items():
         fr.setdefault(k_, v_)
     cone_fns = sorted({c.fn for c in clauses} | {c.name for c in b['contracts'] if pid in c.tags})
+    # ghost lemmas of the model / of the ghost additions whose `//@tags` pragma names this property
+    model_lemmas = []
+    try:
+        _cr, _fr, tag_ranges = vrun.line_index(b['text'])
+        tlines = b['text'].split('\n')
+        decl = {}
+        for i_, l_ in enumerate(tlines, 1):
+            m_ = re.match(r'\s*(?:pub\s+)?(?:broadcast\s+)?proof fn (\w+)', l_)
+            if m_:
+                decl.setdefault(m_.group(1), []).append(i_)
+        for name_, v_ in fr0.items():
+            short = name_.split('::')[-1]
+            for ln_ in decl.get(short, [])[:1]:
+                tg = next((t_ for a_, b_, t_ in tag_ranges if a_ <= ln_ <= b_), None)
+                if tg and pid in tg and v_.get('ok'):
+                    model_lemmas.append({'lemma': name_, 'ms': v_.get('ms', 0)})
+    except Exception:
+        model_lemmas = []
     assumed = [(c.name, c.assumed) for c in b['contracts'] if c.assumed and (pid in c.tags or any(pid in cl.tags for cl in c.requires + c.ensures))]
     lost_here = [(n_, w_) for n_, w_ in b.get('lost', []) if n_ in cone_fns]
     assumed = [x for x in assumed if not x[1].startswith('LOST ANCHOR')]
@@ -522,7 +540,7 @@ def main():
                 print('BOUNDED property=%s the functions listed above are covered only by the bounded native oracle in this tree: %s; 0 failing cases' % (pid, bounded['bound']))
                 rc = 0
     # evidence
-    n_ob = len(clauses) + len(cone_fns)
+    n_ob = len(clauses) + len(cone_fns) + len(model_lemmas)
     failed_keys = {k for k, _ in violations} | {k for k, _ in known_hits}
     n_failed = len(failed_keys)
     und_fns = {t['fn'] for t in tool_mine if t['fn']} | {u.split(' ')[0] for u in unchecked}
@@ -546,7 +564,8 @@ def main():
             'obligations': n_ob, 'discharged': n_discharged,
             'checker_cmd': res['cmd'],
             'trusted_base': props.trusted_base(b),
-            'explanation': 'obligations = tagged contract clauses (%d) + verified function bodies incl. Verus-generated safety/termination obligations (%d)' % (len(clauses), len(cone_fns)),
+            'explanation': 'obligations = tagged contract clauses (%d) + verified function bodies incl. Verus-generated safety/termination obligations (%d) + verified ghost lemmas of the model tagged with this property (%d)' % (len(clauses), len(cone_fns), len(model_lemmas)),
+            'model_lemmas_verified': model_lemmas,
             'functions_under_contract': [{'fn': f, **fr.get(f, {'ok': None})} for f in cone_fns],
             'assumed_contracts_not_proved': [{'fn': n, 'reason': r} for n, r in assumed],
             'back_end': vrun.verus_version(),
